@@ -343,6 +343,7 @@ ORACLES = [
 TRUSTED_BASE = ['pyvc symbolic executor', 'ghost file system (A9): paths are atoms, rename within a directory is atomic, a crash can leave any prefix of a write, single fault',
                 'effective_rules(fs) mirrors load_config\'s selection (proved in C11) and get_all_rules (a broken .rules file counts as not classifying with the user\'s rules)',
                 'the converted rules file is semantically the CSV (C14)']
-ASSUMPTIONS = ['A9', 'single crash or single I/O fault per run', 'settings.yaml initially has no merchants_file key (the state in which migration is offered)']
+ASSUMPTIONS = ['A9', 'what write() hands over reaches the file at the latest when the file is closed (with-block exit or close()); until then the file holds any prefix of it',
+               'get_all_rules(path) inside the migration answers with rules or with none, whatever the file holds', 'single crash or single I/O fault per run', 'settings.yaml initially has no merchants_file key (the state in which migration is offered)']
 EXPLANATION = ('Every effect boundary (crash point) and every single-fault exit of the real migration functions is enumerated by symbolic execution over a ghost file system and checked against '
                'content preservation and effective-rules obligations; bounded stand-in (labelled): fault injection on real directories.')
